@@ -7,7 +7,7 @@ Code-shaped model of
   with the negative-gauge clamp, several rules per resource and the early return at the first violated
   rule (that rule and `curCount` travel in the `BlockError`); the pinned `uint32` arithmetic is kept as
   `checkPassU32` (only the wrap witness is about it);
-* `core/isolation/rule_manager.go` `LoadRules` as far as C04 needs it: rules are grouped per resource in
+* `core/isolation/rule_manager.go` `LoadRules` / `LoadRulesOfResource` / `ClearRulesOfResource` as far as C04 needs them: rules are grouped per resource in
   load order, rules with threshold 0 (and empty resource) are dropped by `IsValidRule`;
 * `core/stat/stat_slot.go` / `core/stat/base_node.go`: the gauge goes up by **one** per passed entry
   (`IncreaseConcurrency`, whatever the batch) and down by one at `Exit` of a passed entry
@@ -148,6 +148,7 @@ def soakBound (rules : List Rule) (g : Int) (G : Nat) (b : UInt32) : Int :=
 
 inductive Op
   | load (rs : List (String × UInt32))
+  | loadres (res : String) (ths : List UInt32)     -- `LoadRulesOfResource` (`[]` = `ClearRulesOfResource`)
   | entry (id : Nat) (res : String) (b : UInt32)
   | exit (id : Nat)
   | conc (res : String)
@@ -172,6 +173,11 @@ def loadRules (rs : List (String × UInt32)) : List (String × Rule) :=
 def rulesOf (rules : List (String × Rule)) (res : String) : List Rule :=
   (rules.filter fun p => p.1 = res).map (·.2)
 
+/-- `LoadRulesOfResource res ths`: only the rules of `res` are replaced (by the valid ones of the new list, positions counted
+    within that list); an empty or all-invalid list leaves `res` without rule; every other resource keeps its rules -/
+def loadResRules (rules : List (String × Rule)) (res : String) (ths : List UInt32) : List (String × Rule) :=
+  (rules.filter fun p => p.1 ≠ res) ++ loadRules (ths.map fun t => (res, t))
+
 structure St where
   rules : List (String × Rule) := []
   gauge : String → Int := fun _ => 0        -- `ResourceNode.concurrency` (0 for a node not created yet)
@@ -187,6 +193,7 @@ def schedHandles (id0 : Nat) (res : String) (th : List Pc) : List (Nat × String
 
 def step (s : St) : Op → St × Out
   | .load rs => ({ s with rules := loadRules rs }, .none)
+  | .loadres res ths => ({ s with rules := loadResRules s.rules res ths }, .none)
   | .entry id res b =>
     if isLive s.live id then (s, .dup) else
     match checkPass (rulesOf s.rules res) (s.gauge res) b with
@@ -222,6 +229,7 @@ def inflight (live : List (Nat × String)) (res : String) : Nat := live.countP (
 
 def specStep (s : SpecSt) : Op → SpecSt × Out
   | .load rs => ({ s with rules := loadRules rs }, .none)
+  | .loadres res ths => ({ s with rules := loadResRules s.rules res ths }, .none)
   | .entry id res b =>
     if isLive s.live id then (s, .dup) else
     match specCheck (rulesOf s.rules res) (inflight s.live res) b with
